@@ -15,12 +15,17 @@ SPEC = dict(
     level_note='A-ASCII for lower(). _get_mass/_get_comp lookup order and the resolver chains (mass_calc._parse_mod_mass, chem_calc._parse_mod_comp) '
                'are exercised by the table tier, not under contract.',
     design_ref='DESIGN.md section 6, C10',
-    contracts=['moddb', 'modmass'],
+    contracts=['moddb', 'modmass', 'modresolve'],
     targets={'modmass': ['peptacular.mass_calc:mod_mass@mod', 'peptacular.mass_calc:mod_mass@int', 'peptacular.mass_calc:mod_mass@float', 'peptacular.mass_calc:mod_mass@str']},
     bounded=[dict(name='C10-tables', script='bounded/C10.py')],
     replay_finder='bounded/C10.py',
     explanation='string obligations for the spelling rules (all discharged) + exhaustive table enumeration',
-    proved_clauses=['strip(p + ":" + x) == x for every documented prefix p in any case and every body x; unprefixed unchanged (5 vocabularies)'],
+    proved_clauses=['look-up (contracts/modresolve.py): _get_mass / _get_comp return -- and raise -- as a function of the database and the text AFTER the '
+                    'prefix is stripped (accession first, then name; tabulated mass else the computed one; a signed number is a mass shift), never of '
+                    'the original spelling; parse_<vocabulary>_mass / _comp (5 vocabularies) are that helper on the stripped text; lemmas: two '
+                    'texts with the same stripped body, and the documented prefixes in upper / lower / mixed case, resolve to the same mass and '
+                    'the same composition (27 lemmas over the contracts)',
+                    'strip(p + ":" + x) == x for every documented prefix p in any case and every body x; unprefixed unchanged (5 vocabularies)'],
     bounded_clauses=['every entry x every spelling x {mono, average, composition}', 'table mass == composition mass (Unimod, monosaccharides)', 'generic forms'],
     uncovered_clauses=[], assumptions=['A-ASCII: case mapping restricted to ASCII', 'str as SMT strings'],
     trusted_base=['z3 5.1', 'cvc5 1.0.3', 'pyvc AST->VC translation'],
